@@ -27,10 +27,11 @@ fn skel(rel: &Relation) -> String {
         Relation::Table(_) => format!("(RTable {})", iv(rel)),
         Relation::Values(_) => format!("(RTable {})", iv(rel)),
         Relation::Map(m) => format!("(RMap {} {} {})", coq_opt(&m.limit().map(|x| x as i128), |x| coq_z(*x)), coq_opt(&m.offset().map(|x| x as i128), |x| coq_z(*x)), skel(m.input())),
-        Relation::Reduce(r) => format!("(RReduce {})", skel(r.input())),
+        Relation::Reduce(r) => format!("(RReduce {} {})", coq_bool(!r.group_by().is_empty()), skel(r.input())),
         Relation::Join(j) => {
             let (l, r) = unique_flags(j);
-            format!("(RJoin {} {} {})", coq_bool(l || r), skel(j.left()), skel(j.right()))
+            let k = match j.operator() { JoinOperator::Inner(_) => "JInner", JoinOperator::LeftOuter(_) => "JLeft", JoinOperator::RightOuter(_) => "JRight", JoinOperator::FullOuter(_) => "JFull", JoinOperator::Cross => "JCross" };
+            format!("(RJoin {} {} {} {} {})", k, coq_bool(l), coq_bool(r), skel(j.left()), skel(j.right()))
         }
         Relation::Set(s) => format!("(RSet {} {} {})", match s.operator() { SetOperator::Union => "SUnion", SetOperator::Except => "SExcept", SetOperator::Intersect => "SIntersect" }, skel(s.left()), skel(s.right())),
     }
@@ -54,6 +55,31 @@ fn unique_flags(j: &qrlew::relation::Join) -> (bool, bool) {
         } else { (false, false) }
     }
     match j.operator() { JoinOperator::Inner(e) | JoinOperator::LeftOuter(e) | JoinOperator::RightOuter(e) | JoinOperator::FullOuter(e) => go(e, j), JoinOperator::Cross => (false, false) }
+}
+/// (optional, unique) of every field of a schema, in Coq syntax
+fn field_flags(s: &qrlew::relation::Schema) -> String {
+    coq_list(&s.iter().collect::<Vec<_>>(), |f| format!("({}, {})", coq_bool(matches!(f.data_type(), DataType::Optional(_))), coq_bool(f.has_unique_or_primary_key_constraint())))
+}
+/// the flags Join::schema, Set::schema and Reduce::schema_aggregate give their output fields (QV/Corr/Flags.v)
+pub fn flag_cases(rel: &Relation, out: &mut Vec<String>) {
+    use qrlew::expr::aggregate::Aggregate;
+    use qrlew::relation::Constraint;
+    match rel {
+        Relation::Join(j) => {
+            let (l, r) = unique_flags(j);
+            let k = match j.operator() { JoinOperator::Inner(_) => "JInner", JoinOperator::LeftOuter(_) => "JLeft", JoinOperator::RightOuter(_) => "JRight", JoinOperator::FullOuter(_) => "JFull", JoinOperator::Cross => "JCross" };
+            out.push(format!("FJoin ({}, ({}, {}), {}, {}, {})", k, coq_bool(l), coq_bool(r), field_flags(j.left().schema()), field_flags(j.right().schema()), field_flags(j.schema())));
+        }
+        Relation::Set(s) => out.push(format!("FSet {}", field_flags(s.schema()))),
+        Relation::Reduce(r) => {
+            let fs: Vec<String> = r.aggregate().iter().zip(r.schema().iter()).map(|(a, f)| {
+                let inu = a.column_name().ok().and_then(|c| r.input().schema().field(c).ok().map(|x| x.constraint() == Some(Constraint::Unique))).unwrap_or(false);
+                format!("({}, {}, {})", coq_bool(a.aggregate() == &Aggregate::First), coq_bool(inu), coq_bool(f.has_unique_or_primary_key_constraint())) }).collect();
+            out.push(format!("FReduce ({}%nat, [{}])", r.group_by().len(), fs.join("; ")));
+        }
+        _ => {}
+    }
+    for i in rel.inputs() { flag_cases(i, out); }
 }
 fn node_sizes(rel: &Relation, out: &mut Vec<String>) {
     let s = rel.size();
@@ -79,6 +105,14 @@ fn case_on_nullable(rel: &Relation) -> bool {
     crate::ir::all_nodes(rel).iter().any(|n| match n {
         Relation::Map(m) => { let it = m.input().data_type(); m.projection().iter().any(|e| go(e, &it)) || m.filter().as_ref().map(|e| go(e, &it)).unwrap_or(false) }
         _ => false })
+}
+
+/// the value is the default of a COALESCE of the query text (COALESCE(x, 1) returned 1)
+fn coalesce_default(sql: &str, v: &SV) -> bool {
+    let re = regex::Regex::new(r"COALESCE\([^,()]+, (-?[0-9.]+)\)").unwrap();
+    let x = match v { SV::Int(i) => *i as f64, SV::Real(f) => *f, _ => return false };
+    let hit = re.captures_iter(sql).any(|c| c[1].parse::<f64>().map(|d| d == x).unwrap_or(false));
+    hit
 }
 
 /// projections of comparisons against the boundary values of the declared types (text and numeric), also under CASE
@@ -118,20 +152,53 @@ pub fn run(prop: &str, outdir: &str, seed: u64, thorough: bool) -> serde_json::V
     let n = if thorough { 20000 } else { 600 };
     let mut data = gen_data(&mut rng.fork(), &w.specs, 12);
     let mut db = Db::new(&w.specs, &data);
-    let mut cases = vec![]; let mut cj = vec![];
+    let mut cases = vec![]; let mut cj = vec![]; let mut flags: Vec<String> = vec![]; let mut boundary: Vec<String> = vec![];
     for i in 0..n {
         let mut r = rng.fork();
-        if i % 10 == 9 { data = gen_data(&mut r, &w.specs, 12); db = Db::new(&w.specs, &data); }
+        if i % 10 == 9 && !(prop == "C07" && i < 24) { data = gen_data(&mut r, &w.specs, 12); db = Db::new(&w.specs, &data); }
         let depth = r.range(0, 2) as u32;
         // joins whose ON clause is a disjunction or a conjunction around an equality on a unique key
         let on_shapes = ["SELECT u.id AS i, o.id AS j FROM users AS u JOIN orders AS o ON u.id = o.user_id OR u.age >= 18", "SELECT u.id AS i, o.id AS j FROM orders AS o JOIN users AS u ON o.user_id = u.id OR o.amount >= 0",
             "SELECT u.id AS i, o.id AS j FROM users AS u JOIN orders AS o ON u.id = o.user_id AND u.age >= 18", "SELECT u.id AS i, o.id AS j FROM users AS u LEFT JOIN orders AS o ON u.id = o.user_id OR u.age >= 18",
             "SELECT u.id AS i, c.pop AS p FROM users AS u JOIN cities AS c ON u.city = c.city OR u.age >= 18", "SELECT u.id AS i, o.id AS j FROM users AS u JOIN orders AS o ON NOT (u.id <> o.user_id) OR u.age >= 18"];
-        let (q0, cols) = if prop == "C07" && r.chance(1, 12) { st.bump("join_condition_shape_queries"); (r.pick(&on_shapes).to_string(), vec![Col { name: "i".into(), num: true }]) }
+        // inputs whose declared size is 0 or 1: an aggregation without GROUP BY still returns a row, an outer join
+        // still returns the rows of the preserved side
+        let size_shapes = ["SELECT COUNT(*) AS i FROM (SELECT t.id AS a FROM users AS t LIMIT 0) AS s", "SELECT COUNT(s.a) AS i, SUM(s.a) AS z FROM (SELECT t.id AS a FROM users AS t ORDER BY t.id LIMIT 5 OFFSET 40) AS s",
+            "SELECT s.a AS i, COUNT(*) AS n FROM (SELECT t.id AS a FROM users AS t LIMIT 0) AS s GROUP BY s.a",
+            "SELECT u.id AS i, o.q AS j FROM users AS u LEFT JOIN (SELECT t.user_id AS q FROM orders AS t LIMIT 0) AS o ON u.age = o.q", "SELECT u.id AS i, o.q AS j FROM (SELECT t.user_id AS q FROM orders AS t LIMIT 0) AS o RIGHT JOIN users AS u ON u.age = o.q",
+            "SELECT u.age AS i, o.q AS j FROM (SELECT x.age AS age FROM users AS x ORDER BY x.age LIMIT 1) AS u FULL JOIN (SELECT t.user_id AS q FROM orders AS t ORDER BY t.user_id LIMIT 1) AS o ON u.age = o.q",
+            "SELECT u.age AS i, o.q AS j FROM users AS u FULL JOIN (SELECT t.user_id AS q FROM orders AS t LIMIT 0) AS o ON u.age = o.q", "SELECT u.age AS i, o.q AS j FROM users AS u JOIN (SELECT t.user_id AS q FROM orders AS t LIMIT 0) AS o ON u.age = o.q",
+            "SELECT u.age AS i, o.q AS j FROM users AS u LEFT JOIN (SELECT t.user_id AS q FROM orders AS t ORDER BY t.user_id LIMIT 1) AS o ON u.age >= o.q"];
+        // every comparison operator at every boundary constant of the two text columns and of two numeric ones, in both
+        // operand orders: always run (the random stream above them reaches a given boundary only now and then)
+        if boundary.is_empty() {
+            for (t, c, ks) in [("users", "city", vec!["'Paris'", "'Lyon'", "'Nice'"]), ("orders", "status", vec!["'new'", "'paid'", "'sent'"]), ("users", "age", vec!["18", "90"]), ("orders", "amount", vec!["0", "500"])] {
+                for op in [">=", "<=", ">", "<", "=", "<>"] {
+                    let mut items = vec![];
+                    for (j, k) in ks.iter().enumerate() {
+                        items.push(format!("t.{} {} {} AS b{}", c, op, k, 2 * j)); items.push(format!("{} {} t.{} AS b{}", k, op, c, 2 * j + 1));
+                    }
+                    boundary.push(format!("SELECT {} FROM {} AS t", items.join(", "), t));
+                }
+            }
+        }
+        if prop == "C07" && i == 0 {
+            // the database the boundary queries run on holds every boundary value
+            data.get_mut("users").unwrap().retain(|row| !matches!(row[0], SV::Int(48..=50)));
+            for (k, (age, city)) in [(18, "Paris"), (90, "Lyon"), (50, "Nice")].iter().enumerate() { data.get_mut("users").unwrap().push(vec![SV::Int(48 + k as i64), SV::Int(*age), SV::Text(city.to_string()), SV::Real(1000.0 - 7.5 * k as f64), SV::Null]); }
+            data.get_mut("orders").unwrap().retain(|row| !matches!(row[0], SV::Int(198..=200)));
+            for (k, (amount, status)) in [(0.0, "new"), (500.0, "paid"), (250.5, "sent")].iter().enumerate() { data.get_mut("orders").unwrap().push(vec![SV::Int(198 + k as i64), SV::Int(48), SV::Real(*amount), SV::Text(status.to_string())]); }
+            db = Db::new(&w.specs, &data);
+        }
+        let (q0, cols) = if prop == "C07" && i < boundary.len() { st.bump("boundary_comparison_queries"); (boundary[i].clone(), vec![Col { name: "b0".into(), num: true }]) }
+            else if prop == "C07" && r.chance(1, 14) { st.bump("degenerate_size_queries"); (r.pick(&size_shapes).to_string(), vec![Col { name: "i".into(), num: true }]) }
+            else if prop == "C07" && r.chance(1, 12) { st.bump("join_condition_shape_queries"); (r.pick(&on_shapes).to_string(), vec![Col { name: "i".into(), num: true }]) }
             else if prop == "C07" && r.chance(1, 6) { st.bump("comparison_projection_queries"); cmp_query(&mut r) } else { let mut g = QGen::new(&mut r, &w.specs); g.bool_items = true; g.query(depth) };
         let is_set = q0.contains(" UNION ") || q0.contains(" INTERSECT ") || q0.contains(" EXCEPT ");
-        let (sql, _) = if is_set { (q0.clone(), false) } else { decorate(&mut r, &q0, &cols) };
+        let (sql, _) = if is_set || (prop == "C07" && i < boundary.len()) { (q0.clone(), false) } else { decorate(&mut r, &q0, &cols) };
         let rel = match catch_unwind(AssertUnwindSafe(|| to_relation(&w, &sql))) { Ok(Ok(rel)) => rel, Ok(Err(_)) => { st.bump("query_rejected"); continue; } Err(_) => { st.bump("query_panicked"); continue; } };
+        // static correspondence: optional / unique flags of the fields of every join, set operation and aggregation
+        if flags.len() < if thorough { 60000 } else { 4000 } { flag_cases(&rel, &mut flags); }
         // static correspondence: the size interval of every node
         if prop == "C07" && !has_unbounded(&rel) {
             let mut sizes = vec![]; node_sizes(&rel, &mut sizes);
@@ -150,7 +217,9 @@ pub fn run(prop: &str, outdir: &str, seed: u64, thorough: bool) -> serde_json::V
             let nrows = rows.len() as i64;
             if !size.contains(&nrows) {
                 let joins: Vec<String> = crate::ir::all_nodes(&rel).iter().filter_map(|n| if let Relation::Join(j) = n { let (l, r) = unique_flags(j); Some(format!("{}{}", j.operator(), if l || r { "+unique" } else { "" })) } else { None }).collect();
-                let class = if joins.iter().any(|j| j.contains("+unique") && !j.starts_with("INNER")) { "outer-join-with-unique-key" } else if joins.iter().any(|j| j.contains("+unique")) { "inner-join-with-unique-key" } else { "other" };
+                let ungrouped = crate::ir::all_nodes(&rel).iter().any(|n| matches!(n, Relation::Reduce(r) if r.group_by().is_empty()));
+                let class = if joins.iter().any(|j| j.contains("+unique") && !j.starts_with("INNER")) { "outer-join-with-unique-key" } else if joins.iter().any(|j| j.contains("+unique")) { "inner-join-with-unique-key" }
+                    else if joins.iter().any(|j| !j.starts_with("INNER") && !j.starts_with("CROSS")) { "outer-join-without-unique-key" } else if ungrouped { "aggregation-without-group-by" } else { "other" };
                 st.violation(json!({"kind":"row-count-outside-declared-size","class":class,"query":sql,"declared_size":size.to_string(),"rows":nrows,"joins":joins,
                     "tables": data.iter().map(|(k, v)| (k.clone(), v.len())).collect::<std::collections::BTreeMap<_, _>>()}));
             }
@@ -166,7 +235,7 @@ pub fn run(prop: &str, outdir: &str, seed: u64, thorough: bool) -> serde_json::V
                         // SQLite returns NULL for a division by zero where PostgreSQL raises an error: not a value of the query
                         if nullish && sql.contains(" / (t.") { reported = false; st.bump("sqlite_null_for_division_by_zero_skipped"); continue; }
                         st.violation(json!({"kind": if nullish { "null-in-non-optional-column" } else { "value-outside-declared-type" },"query":sql,"column":f.name(),"declared_type":t.to_string(),"value":v.json(),
-                            "class": if nullish && crate::ir::all_nodes(&rel).iter().any(|n| matches!(n, Relation::Reduce(_))) { "aggregate-over-empty-or-null-input" } else if case_on_nullable(&rel) { "case-on-nullable-condition" } else if sql.contains(" / (t.") { "quotient-by-range-around-zero" } else { "other" }}));
+                            "class": if nullish && crate::ir::all_nodes(&rel).iter().any(|n| matches!(n, Relation::Reduce(_))) { "aggregate-over-empty-or-null-input" } else if coalesce_default(&sql, v) && crate::ir::all_nodes(&rel).iter().any(|n| matches!(n, Relation::Reduce(_))) { "coalesce-default-over-aggregate-declared-non-null" } else if case_on_nullable(&rel) { "case-on-nullable-condition" } else if sql.contains(" / (t.") { "quotient-by-range-around-zero" } else { "other" }}));
                     }
                 }
             }
@@ -197,12 +266,17 @@ pub fn run(prop: &str, outdir: &str, seed: u64, thorough: bool) -> serde_json::V
             st.known.push(json!({"finding":"C07-join-size-outer-unique","reproduced": !rel.size().contains(&(rows.len() as i64)),"query":q,"declared_size":rel.size().to_string(),"rows":rows.len()}));
         } }
     }
-    if prop == "C14" { crate::c14::targeted(&mut st, &mut rng, thorough); }
+    if prop == "C14" { crate::c14::targeted(&mut st, &mut rng, thorough, &mut flags); }
     let header = "From QV Require Import Rel.Size Corr.Lib Corr.C07.";
     let f = if prop == "C07" { write_shards(outdir, "c07_size", header, "c07_case", "size_check", &cases, if thorough { 2000 } else { 200 }) } else { vec![] };
     if prop == "C07" { std::fs::write(format!("{}/c07_size.json", outdir), serde_json::to_string(&cj).unwrap()).unwrap(); }
-    let mut out = st.to_json("generated queries of the supported fragment executed on SQLite over generated conforming databases (0-12 rows per table, boundary values, NULLs, duplicate and dangling keys, empty tables): every value against the declared column type, the row count against the declared size interval, declared-unique columns against duplicates; distinct by (query, database)");
-    out["shards"] = if prop == "C07" { json!({"c07_size": f}) } else { json!({}) };
+    // the row-level evaluator of the model against SQLite and against the declared sizes / unique flags
+    let ev = crate::evalx::run(&mut st, &mut rng, thorough);
+    let fe = write_shards(outdir, "evaluator", "From Coq Require Import List ZArith Bool. Import ListNotations.\nFrom QV Require Import Rel.Cols Corr.Lib Corr.Eval.\nOpen Scope Z_scope.", "eval_case", "eval_check", &ev, 50);
+    let mut out = st.to_json("generated queries of the supported fragment executed on SQLite over generated conforming databases (0-12 rows per table, boundary values, NULLs, duplicate and dangling keys, empty tables): every value against the declared column type, the row count against the declared size interval, declared-unique columns against duplicates; distinct by (query, database); plus relational expressions over the integer columns rendered both as SQL (executed on SQLite, compiled by qrlew) and as terms of the model evaluated in Coq (rows, declared size, unique flags)");
+    flags.sort(); flags.dedup();
+    let ff = write_shards(outdir, "flags", "From QV Require Import Rel.Rows Corr.Lib Corr.Flags.", "flags_case", "flags_check", &flags, 1000);
+    out["shards"] = if prop == "C07" { json!({"c07_size": f, "flags": ff, "evaluator": fe}) } else { json!({"flags": ff, "evaluator": fe}) };
     let _ = (SetQuantifier::All, DataType::Null);
     out
 }
